@@ -11,6 +11,7 @@ import (
 )
 
 func (self *Interpreter) expression(node ast.AnalyzedExpression) (*value.Value, *value.Interrupt) {
+	verifStep()
 	// Check for the cancelation signal
 	if i := self.checkCancelation(node.Span()); i != nil {
 		return nil, i
